@@ -303,3 +303,23 @@ Definition cp_listable (cp : te_cp) : Prop :=
   Forall (fun sl => Forall seg_listable (snd sl)) (cp_segs cp).
 Definition te_listable (l : list te_tlv) : Prop :=
   Forall (fun t => match t with TeSr cp => cp_listable cp | TeRaw _ v => v = [] end) l.
+
+(* ------------------------------------------------------------------ *)
+(* BGP-MUP NLRI: what the decoder of packet/src/mup.rs can produce *)
+Definition ip_w (i : ipaddr) : N := if ip_is_v4 i then 4 else 16.
+Definition wf_mup (n : mup) : Prop :=
+  match n with
+  | MupIsd d a len => wf_rd d /\ wf_prefix (ip_w a) (ip_value a) len
+  | MupDsd d a => wf_rd d /\ wf_ip a
+  | MupT1 d a len teid qfi ep src =>
+      wf_rd d /\ wf_prefix (ip_w a) (ip_value a) len /\ teid < 4294967296 /\ qfi < 256 /\ wf_ip ep /\ wf_opt wf_ip src
+  | MupT2 d ealen ep teid =>
+      wf_rd d /\ wf_ip ep /\ ip_width ep <= ealen /\ ealen <= ip_width ep + 32 /\ teid < 4294967296 /\
+      ((ealen - ip_width ep + 7) / 8 < 4 -> (teid * 256 ^ ((ealen - ip_width ep + 7) / 8)) mod 4294967296 = 0)
+  end.
+Definition api_mup_in_range (x : api_mup) : Prop :=
+  match x with
+  | AMupIsd d _ | AMupDsd d _ => api_rd_in_range d
+  | AMupT1 d _ teid _ _ _ _ _ => api_rd_in_range d /\ teid < 4294967296
+  | AMupT2 d _ _ teid => api_rd_in_range d /\ teid < 4294967296
+  end.
